@@ -58,6 +58,7 @@ def shards(tier, seed):
         out.append({'kind': 'sweep', 'lat': lname, 'M': M.tolist()})
     # sizes around 2^18 coordinates (a natural block size for FFT work)
     out.append({'kind': 'large', 'N': 3, 'T': 30000})
+    out.append({'kind': 'large', 'N': 3, 'T': 1500, 'driven': 0.1})  # driven ions: 150 cells of net travel along one axis
     if tier == 'thorough':
         out.append({'kind': 'large', 'N': 40, 'T': 2300})
     return out
@@ -174,15 +175,24 @@ def run_shard(shard) -> Result:
         a = np.arange(N)[None, :, None]
         c = np.arange(3)[None, None, :]
         steps = 0.3 * np.sin(0.37 * t + 1.3 * a + 2.1 * c) + 0.05 * ((t + a) % 3 - 1)
+        if shard.get('driven'):
+            steps = 0.02 * np.sin(0.37 * t + 1.3 * a + 2.1 * c) + 0.0 * a
+            steps[:, :, 0] += shard['driven'] * (1 + 0.1 * np.arange(N))[None, :]  # every frame a tenth of a cell further
         x0 = np.tile(np.array([[0.05, 0.95, 0.5]]), (N, 1)) + 0.01 * np.arange(N)[:, None]
         un = np.concatenate([x0[None], x0[None] + np.cumsum(steps, axis=0)], axis=0)
         w = np.mod(un, 1)
         w[w == 1] = 0
         traj = concretise.make_trajectory(w, ['Li'] * N, M, time_step=2e-15)
-        case = {'large': [N, T]}
+        case = {'large': [N, T], 'driven': shard.get('driven')}
         try:
             msd = np.asarray(traj.mean_squared_displacement())
             r = un @ M
+            dist = np.asarray(traj.distances_from_base_position())
+            own_dist = np.linalg.norm(r - r[0][None], axis=-1).T
+            res.evals += N
+            if dist.shape != own_dist.shape or not np.allclose(dist, own_dist, rtol=1e-9, atol=1e-7):
+                bad_t = int(np.argmax(np.any(np.abs(dist - own_dist) > 1e-7 + 1e-9 * own_dist, axis=0))) if dist.shape == own_dist.shape else -1
+                res.violation('distance-from-start-differs-from-definition', case, f'large trajectory N={N} T={T}: first wrong frame {bad_t}')
             for lag in (0, 1, 2, 17, T // 2, T - 2, T - 1):
                 d = r[lag:] - r[: T - lag]
                 own = np.mean(np.sum(d * d, axis=-1), axis=0)
@@ -230,7 +240,7 @@ def geom_tric():
 
 def replay(case):
     if 'large' in case:
-        r = run_shard({'kind': 'large', 'N': case['large'][0], 'T': case['large'][1]})
+        r = run_shard({'kind': 'large', 'N': case['large'][0], 'T': case['large'][1], 'driven': case.get('driven')})
         return [{'kind': v['kind'], 'detail': v['detail']} for v in r.viols]
     viols, _ = evaluate(np.array(case['steps']), np.array(case['M']), case['N'], case['dim'])
     return [{'kind': k, 'detail': d} for k, d in viols]
